@@ -8,6 +8,7 @@ import OV.Model.C08Attr
 import OV.Model.C08Misc
 import OV.Model.C08Scalar
 import OV.Model.C08Linalg
+import OV.Model.C08Norm
 import OV.Drivers.Loop
 /-! Line-protocol driver for C08.  `C08 <fn> <args…>` → `term @ model @ spec`.
     shape: `2,3` (`-` = rank 0); shape list: `2,3/2,1`; int list: `1,2` (`-` = empty); `N` = None. -/
@@ -36,6 +37,31 @@ def rN (r : Option Nat) : String := match r with | some n => toString n | none =
 def out (t m s : String) : String := t ++ " @ " ++ m ++ " @ " ++ s
 def terms (l : List String) : String := " || ".intercalate l
 def showNats (l : List Nat) : String := "[" ++ ",".intercalate (l.map toString) ++ "]"
+
+def pOptShape (s : String) : Option (Option Shape) := if s == "N" then some none else (pShape s).map some
+
+/-- Round-5 family (OV.Model.C08Norm): layer_norm / native_layer_norm / sort / addmm / baddbmm / glu. -/
+def handleB (args : List String) : String :=
+  let bad := "bad-op"
+  match args with
+  | ["layer_norm", nat, s, ns, w, b] => (do
+      let nat ← pBool nat; let s ← pShape s; let ns ← pShape ns; let w ← pOptShape w; let b ← pOptShape b
+      let sh := fun (r : Option (List Shape)) => if nat then rL r else rS (r.map (fun (l : List Shape) => l.headD []))
+      pure (out (layer_norm.term nat ns.length w.isSome b.isSome) (sh (layer_norm.model nat s ns.length w b))
+        (sh (layer_norm.spec nat s ns w b)))).getD bad
+  | ["sort", s, d, desc, _] => (do
+      let s ← pShape s; let d ← pInt d; let desc ← pBool desc
+      pure (out (sort.term s.length d desc) (rL (sort.model s d)) (rL (sort.spec s d)))).getD bad
+  | ["addmm", c, a, b, al, be] => (do
+      let c ← pShape c; let a ← pShape a; let b ← pShape b; let al ← pInt al; let be ← pInt be
+      pure (out (addmm.term al be) (rS (addmm.model c a b)) (rS (addmm.spec c a b)))).getD bad
+  | ["baddbmm", c, a, b, al, be] => (do
+      let c ← pShape c; let a ← pShape a; let b ← pShape b; let al ← pOptInt al; let be ← pOptInt be
+      pure (out (baddbmm.term al be) (rS (baddbmm.model c a b)) (rS (baddbmm.spec c a b)))).getD bad
+  | ["glu", s, d] => (do
+      let s ← pShape s; let d ← pInt d
+      pure (out (glu.term d) (rS (glu.model s d)) (rS (glu.spec s d)))).getD bad
+  | _ => bad
 
 def handle (args : List String) : String :=
   let bad := "bad-op"
@@ -349,7 +375,7 @@ def handle (args : List String) : String :=
   | ["full", z] => (do
       let z ← pInts z
       pure (out "-" (rS (full.model z)) (rS (full.spec z)))).getD bad
-  | _ => bad
+  | _ => handleB args
 
 end OV.Drivers.C08
 
